@@ -24,11 +24,18 @@ void StatesClassification::compute()
     std::vector<boost::shared_ptr<Operator> > sym_op = Symm.getOperations();
     int NOperations=sym_op.size();
     BlockNumber block_index=0;
+    // The quantum numbers are sums of floating-point coefficients, so that equal quantum numbers of two Fock states
+    // may differ by rounding errors (0.1+0.2 vs 0.3). QuantumNumbers are compared bit by bit, therefore a value that
+    // agrees with an already known value of the same operation within the tolerance is replaced by that value.
+    std::vector<std::vector<MelemType> > KnownValues(NOperations);
     for (QuantumState FockStateIndex=0; FockStateIndex<StateSize; ++FockStateIndex) {
         FockState current_state(IndexSize,FockStateIndex);
         QuantumNumbers QNumbers(Symm.getQuantumNumbers());
         for (int n=0; n<NOperations; ++n) {
             MelemType Value=sym_op[n]->getMatrixElement(current_state, current_state);
+            std::vector<MelemType>::const_iterator known=KnownValues[n].begin();
+            while (known!=KnownValues[n].end() && std::abs(Value-*known) > 1e-10*std::max(1.0,std::abs(*known))) ++known;
+            if (known!=KnownValues[n].end()) Value=*known; else KnownValues[n].push_back(Value);
             QNumbers.set(n,Value);
         }
         std::map<QuantumNumbers, BlockNumber>::iterator map_pos=QuantumToBlock.find(QNumbers);
